@@ -278,6 +278,11 @@ def main(argv=None) -> int:
         if v["verdict"] == "ok":
             continue
         opts_j = {k: (sorted(x) if isinstance(x, (set, frozenset)) else x) for k, x in opts.items()}
+        import blame
+        kf = next((e["id"] for e in rep.known_entries() if blame.matches_signature(e, "format_code", {}, hist[0])), None)
+        if kf:
+            rep.known(kf, {"input_id": key, "clause": v["verdict"]})
+            continue
         rep.violation(f"repeated formatting breaks clause {v['verdict']} (first fixed point at application {v['fixed'] - 1 if v['fixed'] else 'never'}); input {key}",
                       {"input_id": key, "options": opts_j, "history": hist, "clause": v["verdict"]})
     rep.coverage["evaluations"] = len(payload) + n_orient
